@@ -103,15 +103,16 @@ theorem ean8_modules_eq (T : Tables) (hT : WFFacts T) (contents : List Nat) (d0 
   simp only [p1, p2, p3, p4, if_false, if_true, Bool.not_true, Bool.not_false, digitWidths]
 
 theorem ean8_read_write (T : Tables) (hWF : WFUpcEan T = true) (contents full : List Nat)
-    (hw : stdWriterContents 8 contents = .ok full) (lq s rq : Nat) (hs : 0 < s)
-    (hlq : s * sumL T.startEnd ≤ lq) (hrq : s * sumL T.startEnd < rq) :
-    ∃ mods, ean8Modules T contents = .ok mods ∧ decodeRow T .ean8 (paddedRow lq s rq mods) = .ok full := by
+    (hw : stdWriterContents 8 contents = .ok full) :
+    ∃ mods, ean8Modules T contents = .ok mods ∧ ∀ (lq s rq : Nat), 0 < s → s * sumL T.startEnd ≤ lq →
+      s * sumL T.startEnd < rq → decodeRow T .ean8 (paddedRow lq s rq mods) = .ok full := by
   have hT := wfFacts T hWF
   obtain ⟨fd, rfl, hlen, hd, hv⟩ := std_full 8 (by omega) (by omega) contents full hw
   match fd, hlen with
   | [d0, d1, d2, d3, d4, d5, d6, d7], _ =>
     have hm := ean8_modules_eq T hT contents d0 d1 d2 d3 d4 d5 d6 d7 hd hw
     refine ⟨_, hm, ?_⟩
+    intro lq s rq hs hlq hrq
     have hacc := readerAccept_std .ean8 (by decide) _ (by simp) hd hv
     have hd' := hd
     simp only [List.mem_cons, List.mem_nil_iff, or_false, forall_eq_or_imp, forall_eq] at hd'
@@ -269,16 +270,16 @@ theorem ean13_modules_eq (T : Tables) (hT : WFFacts T) (contents : List Nat)
 
 theorem ean13_core (T : Tables) (hWF : WFUpcEan T = true) (k : EanKind) (hk : k = .ean13 ∨ k = .upca)
     (contents full : List Nat) (hw : stdWriterContents 13 contents = .ok full)
-    (hupca : k = .upca → full.head? = some 48)
-    (lq s rq : Nat) (hs : 0 < s) (hlq : s * sumL T.startEnd ≤ lq) (hrq : s * sumL T.startEnd < rq) :
-    ∃ mods, ean13Modules T contents = .ok mods ∧
-      decodeRow T k (paddedRow lq s rq mods) = .ok (upceanCanonical k full) := by
+    (hupca : k = .upca → full.head? = some 48) :
+    ∃ mods, ean13Modules T contents = .ok mods ∧ ∀ (lq s rq : Nat), 0 < s → s * sumL T.startEnd ≤ lq →
+      s * sumL T.startEnd < rq → decodeRow T k (paddedRow lq s rq mods) = .ok (upceanCanonical k full) := by
   have hT := wfFacts T hWF
   obtain ⟨fd, rfl, hlen, hd, hv⟩ := std_full 13 (by omega) (by omega) contents full hw
   match fd, hlen with
   | [d0, d1, d2, d3, d4, d5, d6, d7, d8, d9, d10, d11, d12], _ =>
     have hm := ean13_modules_eq T hT contents d0 d1 d2 d3 d4 d5 d6 d7 d8 d9 d10 d11 d12 hd hw
     refine ⟨_, hm, ?_⟩
+    intro lq s rq hs hlq hrq
     have hacc := readerAccept_std .ean13 (by decide) _ (by simp) hd hv
     have hd' := hd
     simp only [List.mem_cons, List.mem_nil_iff, or_false, forall_eq_or_imp, forall_eq] at hd'
@@ -470,17 +471,18 @@ theorem upce_modules_eq (T : Tables) (hT : WFFacts T) (contents : List Nat) (d0 
   simp only [p1, p2, if_false, Bool.not_true]
 
 theorem upce_core (T : Tables) (hWF : WFUpcEan T = true)
-    (contents full : List Nat) (hw : upceWriterContents contents = .ok full)
-    (lq s rq : Nat) (hs : 0 < s) (hlq : s * sumL T.startEnd ≤ lq) (hrq : s * sumL T.upceMiddleEnd < rq) :
-    ∃ mods, upceModules T contents = .ok mods ∧ decodeRow T .upce (paddedRow lq s rq mods) = .ok full := by
+    (contents full : List Nat) (hw : upceWriterContents contents = .ok full) :
+    ∃ mods, upceModules T contents = .ok mods ∧ ∀ (lq s rq : Nat), 0 < s → s * sumL T.startEnd ≤ lq →
+      s * sumL T.upceMiddleEnd < rq → decodeRow T .upce (paddedRow lq s rq mods) = .ok full := by
   have hT := wfFacts T hWF
-  rw [hT.eEq] at hrq
   obtain ⟨fd, rfl, hlen, hd, hns, hacc⟩ := upce_full contents full hw
   match fd, hlen with
   | [d0, d1, d2, d3, d4, d5, d6, d7], _ =>
     have hns' : d0 = 0 ∨ d0 = 1 := by simpa using hns
     have hm := upce_modules_eq T hT contents d0 d1 d2 d3 d4 d5 d6 d7 hd hns' hw
     refine ⟨_, hm, ?_⟩
+    intro lq s rq hs hlq hrq
+    rw [hT.eEq] at hrq
     have hd' := hd
     simp only [List.mem_cons, List.mem_nil_iff, or_false, forall_eq_or_imp, forall_eq] at hd'
     obtain ⟨h0, h1, h2, h3, h4, h5, h6, h7⟩ := hd'
@@ -529,5 +531,81 @@ theorem upce_core (T : Tables) (hWF : WFUpcEan T = true)
       pure, Except.pure, hdet, Nat.add_sub_cancel_left, F6, F7, if_false, Bool.not_true, Bool.false_eq_true,
       reduceCtorEq]
     rw [hres, hacc]
+
+/-! ## all four symbologies -/
+
+theorem std_prefix (n : Nat) (s full : List Nat) (h : stdWriterContents n s = .ok full) : ∃ t, full = s ++ t := by
+  unfold stdWriterContents at h
+  split at h
+  · split at h
+    · cases h
+    · simp only at h
+      split at h
+      · cases h; exact ⟨_, rfl⟩
+      · cases h
+  · split at h
+    · split at h
+      · cases h
+      · cases h
+      · split at h
+        · cases h; exact ⟨[], by simp⟩
+        · cases h
+    · cases h
+
+theorem upcean_read_write_core (T : Tables) (hT : WFUpcEan T = true) (k : EanKind) (contents full : List Nat)
+    (hw : writerContents k contents = .ok full) :
+    ∃ mods, upceanModules T k contents = .ok mods ∧ ∀ (lq s rq : Nat), 1 ≤ s → lq ≥ s * sumL T.startEnd →
+      rq > s * sumL (endGuardOf T k) → decodeRow T k (paddedRow lq s rq mods) = .ok (upceanCanonical k full) := by
+  cases k with
+  | ean13 => exact ean13_core T hT .ean13 (Or.inl rfl) contents full hw (by intro h; cases h)
+  | ean8 => exact ean8_read_write T hT contents full hw
+  | upca =>
+    have hw' : stdWriterContents 13 (48 :: contents) = .ok full := hw
+    obtain ⟨t, ht⟩ := std_prefix 13 _ full hw'
+    exact ean13_core T hT .upca (Or.inr rfl) (48 :: contents) full hw' (by intro _; rw [ht]; rfl)
+  | upce => exact upce_core T hT contents full hw
+
+/-! ## the writer's own rendering -/
+
+theorem renderRow_padded (code : List Bool) (width margin : Nat) (h0 : code.length + margin ≠ 0) :
+    renderRow code width margin = .ok (paddedRow
+      ((max width (code.length + margin) - code.length * (max width (code.length + margin) / (code.length + margin))) / 2)
+      (max width (code.length + margin) / (code.length + margin))
+      (max width (code.length + margin)
+        - (max width (code.length + margin) - code.length * (max width (code.length + margin) / (code.length + margin))) / 2
+        - code.length * (max width (code.length + margin) / (code.length + margin)))
+      code) := by
+  unfold renderRow
+  simp only [h0, if_false, paddedRow, scaleRow]
+
+/-- the row `renderRow` produces satisfies the quiet-zone hypotheses whenever the margin is at least twice the start
+    guard and more than twice the end guard (in modules): e.g. 7 for EAN-13 / EAN-8 / UPC-A, 13 for UPC-E -/
+theorem upcean_rendered_core (T : Tables) (hT : WFUpcEan T = true) (k : EanKind) (contents full : List Nat)
+    (hw : writerContents k contents = .ok full) (width margin : Nat)
+    (hm1 : margin ≥ 2 * sumL T.startEnd) (hm2 : margin ≥ 2 * sumL (endGuardOf T k) + 1) :
+    ∃ mods row, upceanModules T k contents = .ok mods ∧ renderRow mods width margin = .ok row ∧
+      decodeRow T k row = .ok (upceanCanonical k full) := by
+  obtain ⟨mods, hm, hread⟩ := upcean_read_write_core T hT k contents full hw
+  refine ⟨mods, _, hm, renderRow_padded mods width margin (by omega), ?_⟩
+  generalize hn : mods.length = n
+  generalize hW : max width (n + margin) = W
+  have hWge : n + margin ≤ W := by rw [← hW]; exact Nat.le_max_right _ _
+  have hfw : 0 < n + margin := by omega
+  generalize hmm : W / (n + margin) = m
+  have hm1' : 1 ≤ m := by
+    rw [← hmm]; exact (Nat.le_div_iff_mul_le hfw).mpr (by omega)
+  have hle : m * (n + margin) ≤ W := by rw [← hmm]; exact Nat.div_mul_le_self _ _
+  rw [Nat.mul_add] at hle
+  have h1 : m * (2 * sumL T.startEnd) ≤ m * margin := Nat.mul_le_mul_left m hm1
+  have h2 : m * (2 * sumL (endGuardOf T k) + 1) ≤ m * margin := Nat.mul_le_mul_left m hm2
+  have e1 : m * (2 * sumL T.startEnd) = 2 * (m * sumL T.startEnd) := by rw [Nat.mul_left_comm]
+  have e2 : m * (2 * sumL (endGuardOf T k) + 1) = 2 * (m * sumL (endGuardOf T k)) + m := by
+    rw [Nat.mul_add, Nat.mul_left_comm, Nat.mul_one]
+  rw [e1] at h1
+  rw [e2] at h2
+  have e3 : n * m = m * n := Nat.mul_comm _ _
+  apply hread _ m _ hm1'
+  · rw [e3]; omega
+  · rw [e3]; omega
 
 end Gzx.OneD
